@@ -42,6 +42,10 @@ def profGc : Prof := {}
 def profRw : Prof := { wBind := 20, wKid := 12, wKids := 8, wPut := 12, wData := 8 }
 def profAlloc : Prof := { wNext := 20, wAdd := 12, wDataUnread := 10 }
 def profCycle : Prof := { wAdd := 6, wBind := 10, wPut := 12, wDataUnread := 16, wNext := 6 }
+/-- calls that look like reads (`data`, `kid`, `kids`, `keys`, `add` of a present vertex): a memoised result must not
+    survive them when they change something (a first read changes the read status and may collect a group) -/
+def profReads : Prof := { wAdd := 0, wAddPresent := 4, wBind := 0, wPut := 0, wPutAgain := 0, wData := 8, wDataUnread := 20,
+                          wKid := 4, wKids := 4, wNext := 0, wKeys := 2 }
 
 structure GenSt where
   rng : Rng
@@ -254,7 +258,7 @@ def genBigGroup (rng : Rng) (m : Nat) (len : Nat) (force : Bool := false) : Rng 
   (s.rng, s.lines)
 
 /-- create-put-read cycles over a rotating id set with `k` long-lived groups -/
-def genCycles (rng : Rng) (k cycles : Nat) : Rng × Array String :=
+def genCycles (rng : Rng) (k cycles : Nat) (rot : Nat := 3) : Rng × Array String :=
   let (rng, n) := rng.pick [2, 4, 16]
   let base := 2 * k
   let cap := base + 8
@@ -265,7 +269,7 @@ def genCycles (rng : Rng) (k cycles : Nat) : Rng × Array String :=
     | some s' => s'
     | none => s) s
   let s := (List.range cycles).foldl (fun (s : GenSt) c =>
-    let a := base + (c % 3) * 2
+    let a := base + (c % rot) * 2
     let b := a + 1
     let (rng, variant) := s.rng.below 4
     let s := { s with rng := rng }
@@ -331,6 +335,29 @@ def genOverlap (rng : Rng) (k w rounds policy : Nat) : Rng × Array String :=
                 | some s' => s'
                 | none => s
               (s, alive.eraseIdx idx)) (s, alive)) (s, [])
+  let s := s.drain
+  (s.rng, s.lines)
+
+/-- one kind of event repeated 255, 256 or 257 times (or twice that) between two allocator calls and observations: what an
+    8-bit counter of such events would get wrong -/
+def genWrap (rng : Rng) (kind : Nat) : Rng × Array String :=
+  let (rng, n) := rng.pick [2, 4, 16]
+  let reps := [256, 255, 257, 512, 254].getD ((kind / 6) % 5) 256
+  let cap := reps + 16
+  let s := GenSt.start rng n cap
+  let d : Hex := Hx.Hex.ofBytes [7]
+  let pre : List Op := [.nextId, .add 0, .add 1, .add 2, .bind 1 2 (.alpha 0), .put 2 d, .nextId]
+  let s := match s.tryOps pre with | some s' => s' | none => s
+  let body : List Op :=
+    if kind % 6 = 0 then (List.range reps).map (fun i => Op.add (i + 5))                       -- creations ahead of the allocator
+    else if kind % 6 = 1 then (List.range reps).flatMap (fun _ => [Op.add 9, .add 10, .bind 9 10 (.alpha 1), .put 10 d, .data 10])  -- collections, re-creations
+    else if kind % 6 = 2 then (List.range reps).map (fun i => Op.put 2 (Hx.Hex.ofBytes [UInt8.ofNat i, 1]))       -- overwriting puts
+    else if kind % 6 = 3 then (List.range reps).map (fun _ => Op.bind 1 2 (.alpha 0))             -- re-binds of one edge
+    else if kind % 6 = 4 then (List.range reps).flatMap (fun i => [Op.put 0 (Hx.Hex.ofBytes [UInt8.ofNat i]), .data 0])   -- puts and reads of an ungrouped vertex
+    else (List.range reps).flatMap (fun _ => [Op.kid 1 (.alpha 0), .data 1])                         -- look-ups and empty reads
+  let s := match s.tryOps body with | some s' => s' | none => s
+  let post : List Op := [.nextId, .keys, .nextId, .nextId, .nextId, .add 3, .bind 3 1 (.alpha 2), .put 3 d, .kids 1, .kids 3]
+  let s := match s.tryOps post with | some s' => s' | none => s
   let s := s.drain
   (s.rng, s.lines)
 
@@ -467,6 +494,12 @@ def genSer (rng : Rng) (len : Nat) (cutStep : Nat) : Rng × Array String :=
   let s := { s with rng := rng }
   let s := if dg = 0 then s.dangling else s
   let s := { s with lines := (s.lines.push "save g0").push s!"loadcuts g0 {cutStep}" }
+  -- in half of the histories only read-like calls lie between that save and the save of the reload (a graph that
+  -- remembers its last image must forget it on every change, also on those a read makes)
+  let (rng, rd) := s.rng.below 2
+  let (rng, nr) := rng.below 6
+  let s := { s with rng := rng }
+  let s := if rd = 0 then (List.range (nr + 1)).foldl (fun s _ => s.stepRandom profReads) s else s
   let s := { s with lines := s.lines.push "reload g0 g1" }
   let s := twoHandles s true p (len / 3) (len / 6)
   (s.rng, s.lines)
@@ -708,6 +741,29 @@ def genRender (rng : Rng) (len : Nat) : Rng × Array String :=
   let s := renderLines s
   (s.rng, s.lines)
 
+/-- one kind of export repeated 254 … 257 times on one graph value between two other exports: what an 8-bit pass or
+    generation number inside the graph would get wrong -/
+def genRenderWrap (rng : Rng) (kind : Nat) : Rng × Array String :=
+  let (rng, n) := rng.pick [2, 4, 16]
+  let reps := [254, 255, 256, 257, 253].getD ((kind / 3) % 5) 255
+  let s := GenSt.start rng n 9
+  let d : Hex := Hx.Hex.ofBytes [7, 8]
+  -- a chain 0 → 1 → 2 → 3 (for the repeated `inspect` of the leaf: nothing else is visited in between) or the chain with a
+  -- back edge 3 → 1
+  let pre : List Op := [.add 0, .add 1, .add 2, .add 3, .add 5, .bind 0 1 (.alpha 0), .bind 1 2 (.alpha 0), .bind 2 3 (.alpha 0)] ++
+    (if kind % 3 = 0 then [] else [.bind 3 1 (.alpha 1)]) ++ [.put 3 d, .put 5 d]
+  let s := match s.tryOps pre with | some s' => s' | none => s
+  let many (l : String) : Array String := (List.replicate reps l).toArray
+  let body : Array String :=
+    if kind % 3 = 0 then #["inspect g0 0"] ++ many "inspect g0 3" ++ #["inspect g0 0", "inspect g0 2", "inspect g0 5"]
+    else if kind % 3 = 1 then #["xml g0", "dot g0"] ++ many "xml g0" ++ many "dot g0" ++ #["vprint g0 3"] ++ many "vprint g0 5" ++ #["vprint g0 3"]
+    else #["debug g0"] ++ many "debug g0" ++ many "display g0" ++ #["inspect g0 1"]
+  let s := { s with lines := s.lines ++ body }
+  -- then a change that only a read makes, and everything once more
+  let s := match s.tryOps [.data 5, .data 3] with | some s' => s' | none => s
+  let s := renderLines s
+  (s.rng, s.lines)
+
 def genProfile (profile : String) (seed : Nat) (count len : Nat) : Array String := Id.run do
   if profile = "hex15" then return genHex15 seed len count
   if profile = "concat16" then return genConcat16 seed len
@@ -733,9 +789,13 @@ def genProfile (profile : String) (seed : Nat) (count len : Nat) : Array String 
         if i % 3 = 2 then
           let w := 1 + (i / 3) % 5
           genOverlap rng ((i / 15) % (12 - w)) w len ((i / 3) % 3)
-        else genCycles rng (i % 14) (if i = 1 then len * 8 else len)   -- one long history: more than 256 collections in one graph
+        -- one long history over a single pair of ids: more than 256 collections in one graph, the same two ids re-created
+        -- more than 256 times
+        else if i = 1 then genCycles rng 1 (len * 8) 1
+        else genCycles rng (i % 14) len
+      | "wrap" => genWrap rng i
       | "fork" => genFork rng len
-      | "render" => genRender rng len
+      | "render" => if i % 25 = 7 then genRenderWrap rng (i / 25) else genRender rng len
       | "slice" => genSlice rng len
       | "merge" => genMerge rng false
       | "mergebroken" => genMerge rng true
